@@ -129,3 +129,5 @@ func TestC10Enum(t *testing.T) {
 
 func TestC17Rapid(t *testing.T)    { C17List.RunRapid(t) }
 func TestC17ViaRapid(t *testing.T) { C17Via.RunRapid(t) }
+
+func TestC19Rapid(t *testing.T) { C19Sig.RunRapid(t) }
